@@ -246,6 +246,14 @@ def rule_forwarding(ctx: Ctx, repo: Repo) -> None:
                       construct=norm(call)[:140], node=call)
             continue
         n += 1
+        if any(isinstance(x, ast.Starred) for x in call.args) or any(k.arg is None for k in call.keywords):
+            # f(*packed, strategy) / f(**packed): the binding is decided by interpreting the caller
+            from . import c01 as _c01
+            table = {"get_updated_definition": _c01.rule_updated_definition, "FunctionDefinition.from_callable_and_traced_types": _c01.rule_traced_types}
+            if caller.qualname not in table:
+                raise AnalysisError(f"R-C13.5: {caller.qualname} passes packed arguments to {callee.qualname}; no interpretive rule covers it")
+            table[caller.qualname](ctx, repo)
+            continue
         a = bound_argument(callee, call, P)
         ok = a is not None and ((isinstance(a, ast.Name) and a.id == P) or norm(a) == "args.existing_annotation_strategy")
         if ok and isinstance(a, ast.Name):
